@@ -12,11 +12,15 @@ import (
 	"log/slog"
 	"os"
 	"path/filepath"
+	"runtime"
 	"strings"
 	"sync"
 	"sync/atomic"
 	"time"
+	"unicode/utf8"
 
+	"github.com/postalsys/muti-metroo/internal/agent"
+	"github.com/postalsys/muti-metroo/internal/config"
 	"github.com/postalsys/muti-metroo/internal/crypto"
 	"github.com/postalsys/muti-metroo/internal/identity"
 	"github.com/postalsys/muti-metroo/internal/shell"
@@ -42,6 +46,10 @@ type authCase struct {
 	Args      []string `json:"args"`
 	Password  string   `json:"password"`
 	Observed  string   `json:"observed,omitempty"`
+	// ViaAgent: the executor is the one agent.New wires from configuration
+	// text (shell section as below, file_transfer / icmp / udp sections set to
+	// different values)
+	ViaAgent bool `json:"via_agent,omitempty"`
 }
 
 type stormCase struct {
@@ -86,6 +94,47 @@ func (w *frameWriter) WriteStreamData(_ identity.AgentID, sid uint64, data []byt
 	return nil
 }
 func (w *frameWriter) WriteStreamClose(identity.AgentID, uint64) error { return nil }
+
+// shellAttempt plays one client: open a stream on the handler (interactive
+// or not), send the end-to-end encrypted metadata frame, and report whether
+// the first frame that comes back is the ACK of a started session.
+func shellAttempt(h *shell.Handler, fw *frameWriter, peer identity.AgentID, sid uint64, meta *shell.ShellMeta, interactive bool) (granted bool) {
+	priv, pub, err := crypto.GenerateEphemeralKeypair()
+	if err != nil {
+		panic(err)
+	}
+	code, srvPub := h.HandleStreamOpen(peer, sid, sid, interactive, pub)
+	if code != 0 {
+		return false
+	}
+	shared, err := crypto.ComputeECDH(priv, srvPub)
+	if err != nil {
+		panic(err)
+	}
+	key := crypto.DeriveSessionKey(shared, sid, pub, srvPub, true)
+	var frame []byte
+	if meta != nil {
+		if frame, err = shell.EncodeMeta(meta); err != nil {
+			panic(err)
+		}
+	} else {
+		frame = []byte{0x01, '{', 'x'}
+	}
+	ct, err := key.Encrypt(frame)
+	if err != nil {
+		panic(err)
+	}
+	reply := fw.ch(sid)
+	h.HandleStreamData(peer, sid, ct, 0)
+	select {
+	case f := <-reply:
+		if pt, err := key.Decrypt(f); err == nil && len(pt) > 0 && pt[0] == shell.MsgAck {
+			return true
+		}
+	case <-time.After(30 * time.Second):
+	}
+	return false
+}
 
 type seqCase struct {
 	Kind  string `json:"kind"`
@@ -136,7 +185,85 @@ func main() {
 	body := &hcq.Enc{}
 	nCases := 0
 
+	otherHash, err := bcrypt.GenerateFromPassword([]byte("file transfer password"), bcrypt.MinCost)
+	if err != nil {
+		panic(err)
+	}
+	agentDir, err := os.MkdirTemp("", "verif-c25a-")
+	if err != nil {
+		panic(err)
+	}
+	defer os.RemoveAll(agentDir)
+	yq := func(s string) string { // YAML double-quoted scalar
+		var sb strings.Builder
+		sb.WriteByte('"')
+		for i := 0; i < len(s); i++ {
+			switch ch := s[i]; {
+			case ch == '"' || ch == '\\':
+				sb.WriteByte('\\')
+				sb.WriteByte(ch)
+			case ch < 0x20 || ch == 0x7f:
+				fmt.Fprintf(&sb, "\\x%02x", ch)
+			default:
+				sb.WriteByte(ch)
+			}
+		}
+		sb.WriteByte('"')
+		return sb.String()
+	}
+	// the executor as the product builds it: configuration text -> config.Parse -> agent.New
+	agentExec := func(a authCase) *shell.Executor {
+		for _, w := range a.Whitelist {
+			if !utf8.ValidString(w) { // not expressible as a YAML string
+				c.Count("via-agent:whitelist-not-utf8-direct-executor-used")
+				return nil
+			}
+		}
+		var sb strings.Builder
+		fmt.Fprintf(&sb, "agent:\n  data_dir: %s\n  log_level: error\n", yq(agentDir))
+		fmt.Fprintf(&sb, "shell:\n  enabled: %v\n  max_sessions: %d\n", a.Enabled, a.Max)
+		if a.HasHash {
+			fmt.Fprintf(&sb, "  password_hash: %s\n", yq(string(hash)))
+		}
+		sb.WriteString("  whitelist: [")
+		for i, w := range a.Whitelist {
+			if i > 0 {
+				sb.WriteString(", ")
+			}
+			sb.WriteString(yq(w))
+		}
+		sb.WriteString("]\n")
+		// every neighbouring section says something else
+		fmt.Fprintf(&sb, "file_transfer:\n  enabled: %v\n  allowed_paths: [\"*\"]\n", !a.Enabled)
+		if !a.HasHash {
+			fmt.Fprintf(&sb, "  password_hash: %s\n", yq(string(hash)))
+		} else if a.Max%2 == 0 {
+			fmt.Fprintf(&sb, "  password_hash: %s\n", yq(string(otherHash)))
+		}
+		fmt.Fprintf(&sb, "icmp:\n  enabled: %v\n  max_sessions: %d\nudp:\n  enabled: false\n  max_associations: %d\n", !a.Enabled, a.Max+3, a.Max+5)
+		cfg, err := config.Parse([]byte(sb.String()))
+		if err != nil {
+			c.Count("via-agent:config-rejected")
+			return nil
+		}
+		ag, err := agent.New(cfg)
+		if err != nil {
+			panic(fmt.Sprintf("agent.New: %v", err))
+		}
+		h := ag.VerifShellHandler()
+		if h == nil {
+			c.Fail("agent-without-shell-handler", "agent.New built no shell handler", a)
+			return nil
+		}
+		c.Count("via-agent:executor-from-configuration-text")
+		return h.VerifExecutor()
+	}
 	mkExec := func(a authCase) *shell.Executor {
+		if a.ViaAgent {
+			if e := agentExec(a); e != nil {
+				return e
+			}
+		}
 		cfg := shell.Config{Enabled: a.Enabled, Whitelist: a.Whitelist, MaxSessions: a.Max}
 		if a.HasHash {
 			cfg.PasswordHash = string(hash)
@@ -208,7 +335,7 @@ func main() {
 			return
 		}
 		a.Observed = fmt.Sprint(verr)
-		key := fmt.Sprintf("%v|%q|%v|%d|%d|%q|%q|%q", a.Enabled, a.Whitelist, a.HasHash, a.Max, before, a.Command, a.Args, a.Password)
+		key := fmt.Sprintf("%v|%q|%v|%d|%d|%q|%q|%q|%v", a.Enabled, a.Whitelist, a.HasHash, a.Max, before, a.Command, a.Args, a.Password, a.ViaAgent)
 		c.Case(key, a.Enabled && len(a.Whitelist) > 0, a)
 		c.Count(fmt.Sprintf("verdict:%d", code))
 		// monitors
@@ -318,6 +445,9 @@ func main() {
 					if cnt := e.ActiveSessions(); max > 0 && cnt > max {
 						atomic.StoreInt64(&over, int64(cnt))
 					}
+					for k := 0; k < 20; k++ { // hold the slot for a moment: an over-admission stays visible
+						runtime.Gosched()
+					}
 					atomic.AddInt64(&live, -1)
 					e.ReleaseSession()
 				}
@@ -358,12 +488,13 @@ func main() {
 		h := shell.NewHandler(e, fw, slog.New(slog.NewTextHandler(io.Discard, nil)))
 		peer := identity.AgentID{9}
 		type plan struct {
-			kind  int // 0 logger to completion (retries while denied), 1 sleeper closed early, 2 sleeper closed twice, 3 command that cannot start, 4 garbage metadata
+			kind  int // 0 logger to completion (retries while denied), 1 sleeper closed early, 2 sleeper closed twice, 3 command that cannot start, 4 garbage metadata,
+			// 5 PTY request for a command that cannot start, 6 PTY request with a working directory that does not exist, 7 the same without PTY
 			delay time.Duration
 		}
 		plans := make([]plan, hc.Streams)
 		for i := range plans {
-			plans[i] = plan{kind: r.Pick(0, 0, 0, 1, 2, 3, 4), delay: time.Duration(r.Intn(8)) * time.Millisecond}
+			plans[i] = plan{kind: r.Pick(0, 0, 0, 0, 1, 2, 3, 4, 5, 5, 6, 7), delay: time.Duration(r.Intn(8)) * time.Millisecond}
 		}
 		var over, nextSID int64
 		nextSID = 100
@@ -385,44 +516,11 @@ func main() {
 			}
 		}()
 		// one attempt: open a stream, send the metadata frame, report whether the session was acknowledged
-		attempt := func(meta *shell.ShellMeta) (sid uint64, granted bool) {
+		attemptI := func(meta *shell.ShellMeta, interactive bool) (sid uint64, granted bool) {
 			sid = uint64(atomic.AddInt64(&nextSID, 1))
-			priv, pub, err := crypto.GenerateEphemeralKeypair()
-			if err != nil {
-				panic(err)
-			}
-			code, srvPub := h.HandleStreamOpen(peer, sid, sid, false, pub)
-			if code != 0 {
-				return sid, false
-			}
-			shared, err := crypto.ComputeECDH(priv, srvPub)
-			if err != nil {
-				panic(err)
-			}
-			key := crypto.DeriveSessionKey(shared, sid, pub, srvPub, true)
-			var frame []byte
-			if meta != nil {
-				if frame, err = shell.EncodeMeta(meta); err != nil {
-					panic(err)
-				}
-			} else {
-				frame = []byte{0x01, '{', 'x'}
-			}
-			ct, err := key.Encrypt(frame)
-			if err != nil {
-				panic(err)
-			}
-			reply := fw.ch(sid)
-			h.HandleStreamData(peer, sid, ct, 0)
-			select {
-			case f := <-reply:
-				if pt, err := key.Decrypt(f); err == nil && len(pt) > 0 && pt[0] == shell.MsgAck {
-					return sid, true
-				}
-			case <-time.After(30 * time.Second):
-			}
-			return sid, false
+			return sid, shellAttempt(h, fw, peer, sid, meta, interactive)
 		}
+		attempt := func(meta *shell.ShellMeta) (uint64, bool) { return attemptI(meta, false) }
 		var wg sync.WaitGroup
 		for i := range plans {
 			wg.Add(1)
@@ -462,6 +560,19 @@ func main() {
 					w2.Wait()
 				case 3:
 					attempt(&shell.ShellMeta{Command: "/nonexistent/verif-c25-command"})
+				case 5, 6, 7:
+					// failing starts keep coming while other sessions are alive
+					for try := 0; try < 6; try++ {
+						switch p.kind {
+						case 5:
+							attemptI(&shell.ShellMeta{Command: "/nonexistent/verif-c25-command", TTY: &shell.TTYSettings{Rows: 24, Cols: 80}}, true)
+						case 6:
+							attemptI(&shell.ShellMeta{Command: "true", WorkDir: "/nonexistent/verif-c25-dir", TTY: &shell.TTYSettings{Rows: 24, Cols: 80}}, true)
+						default:
+							attemptI(&shell.ShellMeta{Command: "true", WorkDir: "/nonexistent/verif-c25-dir"}, false)
+						}
+						time.Sleep(3 * time.Millisecond)
+					}
 				default:
 					attempt(nil)
 				}
@@ -502,6 +613,82 @@ func main() {
 		if hc.Max > 0 && peak > hc.Max {
 			c.Fail("live-processes-above-maximum", fmt.Sprintf("%d shell processes were alive at the same time with max_sessions %d", peak, hc.Max), hc)
 		}
+	}
+
+	// deterministic: requests whose process cannot start, on the PTY and the
+	// plain path, while another stream holds a session. After each of them the
+	// counter must still equal the number of holders, and exactly max holders
+	// must be admitted afterwards.
+	failingStarts := func(max int) {
+		rp := stormCase{Kind: "failing-starts", Max: max}
+		e := shell.NewExecutor(shell.Config{Enabled: true, Whitelist: []string{"*"}, MaxSessions: max})
+		fw := &frameWriter{}
+		h := shell.NewHandler(e, fw, slog.New(slog.NewTextHandler(io.Discard, nil)))
+		peer := identity.AgentID{7}
+		sid := uint64(500)
+		holders := 0
+		var held []uint64
+		hold := func() bool {
+			sid++
+			if shellAttempt(h, fw, peer, sid, &shell.ShellMeta{Command: "sleep", Args: []string{"30"}}, false) {
+				holders++
+				held = append(held, sid)
+				return true
+			}
+			return false
+		}
+		check := func(after string) {
+			if n := e.ActiveSessions(); n != holders {
+				c.Fail("counter-differs-from-holders", fmt.Sprintf("after %s: %d sessions counted, %d streams hold a session (max_sessions %d)", after, n, holders, max), rp)
+			}
+		}
+		tty := &shell.TTYSettings{Rows: 24, Cols: 80}
+		if !hold() {
+			c.Fail("first-session-denied", "the first session of an empty executor was denied", rp)
+		}
+		check("the first session")
+		for _, f := range []struct {
+			name        string
+			meta        *shell.ShellMeta
+			interactive bool
+		}{
+			{"a PTY request for a command that does not exist", &shell.ShellMeta{Command: "/nonexistent/verif-c25-command", TTY: tty}, true},
+			{"a PTY request with a working directory that does not exist", &shell.ShellMeta{Command: "true", WorkDir: "/nonexistent/verif-c25-dir", TTY: tty}, true},
+			{"a request for a command that does not exist", &shell.ShellMeta{Command: "/nonexistent/verif-c25-command"}, false},
+			{"a request with a working directory that does not exist", &shell.ShellMeta{Command: "true", WorkDir: "/nonexistent/verif-c25-dir"}, false},
+			{"a PTY request with an empty command", &shell.ShellMeta{Command: "", TTY: tty}, true},
+			{"a metadata frame that is not JSON", nil, false},
+		} {
+			sid++
+			if shellAttempt(h, fw, peer, sid, f.meta, f.interactive) {
+				c.Fail("failing-start-acknowledged", "acknowledged "+f.name, rp)
+			}
+			check(f.name)
+			// the executor's PTY entry point directly
+			if f.interactive && f.meta != nil {
+				if _, err := e.NewPTYSession(context.Background(), f.meta); err == nil {
+					c.Fail("failing-start-acknowledged", "NewPTYSession succeeded for "+f.name, rp)
+				}
+				check(f.name + " (NewPTYSession called directly)")
+			}
+		}
+		// fill up: exactly max holders in total, the next one is refused
+		for holders < max {
+			if !hold() {
+				c.Fail("session-denied-below-maximum", fmt.Sprintf("denied with %d of %d sessions in use", holders, max), rp)
+				break
+			}
+		}
+		if hold() {
+			c.Fail("live-processes-above-maximum", fmt.Sprintf("%d sessions admitted with max_sessions %d after failed starts", holders, max), rp)
+		}
+		check("filling up")
+		for _, s := range held {
+			h.HandleStreamClose(s)
+		}
+		holders = 0
+		check("closing every stream")
+		c.Count("kind:failing-starts")
 	}
 
 	// real process starts: a whitelisted command that leaves a marker file
@@ -601,7 +788,7 @@ func main() {
 	commands := []string{"ls", "echo", "LS", "ls ", " ls", "/bin/ls", "./ls", "bin\\ls", "*", "", "\xc3\xa9", "l\x00s", "ls\n", "ls;id", "whoami", "l", "lsx", "../ls", "ls/", "\\ls"}
 	argAlphabet := []string{"a", "-l", "x y", ".", "..", "/", "\\", ";", "&", "|", "$", "`", "(", ")", "{", "}", "[", "]", "<", ">", "!", "*", "?", "~",
 		"\x00", "\xc3\xa9", "\xff", "\n", "'", "\"", "#", "=", ",", "%", "^", ":", "@", "+", "-", "_", "\t", " "}
-	argWords := []string{"", "--", "-- ;", "file.txt", "-la", "--color=auto", "/etc/passwd", "/", "./x", "../x", "-f/etc/passwd", "--file=/etc/shadow", "a b", "$(id)", "`id`", "a;b", "a|b", "a&b",
+	argWords := []string{"", "--", "-- ;", ";=x", "a;b=c", "$(id)=1", "`id`=x", "a|b=--c", "/etc/passwd=x", "/abs=rel", "x=;", "k=/abs", "=", "==;", "file.txt", "-la", "--color=auto", "/etc/passwd", "/", "./x", "../x", "-f/etc/passwd", "--file=/etc/shadow", "a b", "$(id)", "`id`", "a;b", "a|b", "a&b",
 		"a>b", "a<b", "{a,b}", "[ab]", "a*", "a?", "~root", "!!", "a\\b", "caf\xc3\xa9", "a\x00b", "a\nb", "'q'", "\"q\"", "#c", "C:\\x", "\\\\srv\\share", " /abs", "x/", "//x"}
 	genArg := func() string {
 		if c.Rand.Chance(1, 2) {
@@ -640,6 +827,10 @@ func main() {
 			var st stormCase
 			c.ReadReplay(&st)
 			storm(st.Max, st.G, st.M)
+		case "failing-starts":
+			var st stormCase
+			c.ReadReplay(&st)
+			failingStarts(st.Max)
 		case "handler-storm":
 			var hc handlerCase
 			c.ReadReplay(&hc)
@@ -695,6 +886,37 @@ func main() {
 				runAuth(a)
 			}
 		}
+		// 1b. the same decisions on the executor the agent wires from configuration text
+		for _, pw := range passwords {
+			for _, hh := range []bool{true, false} {
+				for _, en := range []bool{true, false} {
+					for _, mx := range []int{1, 2} {
+						a := base
+						a.Password, a.HasHash, a.Enabled, a.Max, a.ViaAgent = pw, hh, en, mx, true
+						runAuth(a)
+					}
+				}
+			}
+		}
+		for _, wl := range whitelists {
+			for _, cmd := range []string{"ls", "whoami", "/bin/ls"} {
+				a := base
+				a.Whitelist, a.Command, a.ViaAgent = wl, cmd, true
+				runAuth(a)
+			}
+		}
+		for _, cmd := range []string{"\xc3\xa9", "ls ", "", "bin\\ls", "LS"} {
+			a := base
+			a.Whitelist, a.Command, a.ViaAgent = []string{cmd, "x"}, cmd, true
+			runAuth(a)
+		}
+		for _, mx := range []int{0, 1, 3} {
+			for before := 0; before <= 3; before++ {
+				a := base
+				a.Max, a.Before, a.Args, a.ViaAgent = mx, before, []string{"-l", "a;b"}[:1+before%2], true
+				runAuth(a)
+			}
+		}
 		// 2. random requests
 		n := c.N(700, 20000)
 		for i := 0; i < n; i++ {
@@ -712,6 +934,7 @@ func main() {
 					a.Args = append(a.Args, genArg())
 				}
 			}
+			a.ViaAgent = c.Thorough() && i%10 == 0
 			runAuth(a)
 		}
 		// 3. sequential acquire/release histories
@@ -731,9 +954,18 @@ func main() {
 			runSeq(s)
 		}
 		// 4. concurrent storms
-		nst := c.N(40, 400)
+		nst := c.N(30, 300)
 		for i := 0; i < nst; i++ {
 			storm(c.Rand.Pick(0, 1, 1, 2, 3, 5), c.Rand.Pick(2, 4, 8, 16), c.Rand.Pick(10, 50, 200))
+		}
+		// many more clients than processors: a check and an increment that are not one critical
+		// section only come apart when a client is descheduled between them
+		for i := 0; i < c.N(6, 40); i++ {
+			storm(c.Rand.Pick(1, 1, 2), 256, 300)
+		}
+		// 4a. failing starts while a session is held
+		for _, mx := range []int{1, 2, 3} {
+			failingStarts(mx)
 		}
 		// 4b. handler-level storms with real processes
 		nh := c.N(8, 80)
